@@ -129,6 +129,14 @@ func registerStdIntrinsics(m map[string]intrinsic) {
 		return nil
 	}
 	m["runtime.Callers"] = func(r *Run, caller *frame, fn *ssa.Function, args []Value) Value { return r.ctx().Const(64, 0) }
+	m["runtime.CallersFrames"] = func(r *Run, caller *frame, fn *ssa.Function, args []Value) Value {
+		r.stubs["runtime.CallersFrames (empty trace)"] = true
+		t := fn.Signature.Results().At(0).Type().Underlying().(*types.Pointer).Elem()
+		return Ptr{obj: r.allocType(t, "runtime.Frames")}
+	}
+	m["(*runtime.Frames).Next"] = func(r *Run, caller *frame, fn *ssa.Function, args []Value) Value {
+		return Tuple{r.w.zero(fn.Signature.Results().At(0).Type()), r.ctx().False}
+	}
 	m["runtime.KeepAlive"] = func(r *Run, caller *frame, fn *ssa.Function, args []Value) Value { return nil }
 	m["runtime.GOMAXPROCS"] = func(r *Run, caller *frame, fn *ssa.Function, args []Value) Value { return r.ctx().Const(64, 16) }
 
